@@ -295,7 +295,7 @@ class DependencyFallbacksHolder(MesonInterpreterObject):
     def _check_version(wanted: T.List[str], found: str) -> bool:
         if not wanted:
             return True
-        return not (found == 'undefined' or not version_compare_many(found, wanted)[0])
+        return not (found in {'undefined', 'unknown'} or not version_compare_many(found, wanted)[0])
 
     def _get_candidates(self) -> T.List[CandidateType]:
         candidates: T.List[CandidateType] = []
